@@ -103,6 +103,7 @@ def detect(name, pids, tier="quick"):
         for pid in pids:
             e = dict(os.environ)
             e["SIGPY_REPO"] = d
+            e["VERIF_EVIDENCE_DIR"] = os.path.join(VERIF, "build", "evidence_mutants")
             t0 = time.time()
             rc, o = sh([os.path.join(VERIF, "check"), pid, "--tier", tier], cwd=VERIF, env=e, timeout=3000)
             lines = [l for l in o.split("\n") if l.startswith(("VIOLATION", "KNOWN-FINDING"))]
